@@ -91,6 +91,23 @@ func (s *shared) explore(fn *ssa.Function, cfg *Config) *harnessResult {
 		ObligByLabel: map[string]map[string]int{}, Reached: map[string]bool{}, Stubs: map[string]bool{},
 		Outside: map[string]bool{}, Funcs: map[*ssa.Function]bool{}, DistinctSeqs: map[string]bool{}}
 	ex.queue = []workItem{{}}
+	if os.Getenv("GOSYM_PROGRESS") != "" {
+		done := make(chan struct{})
+		defer close(done)
+		go func() {
+			for {
+				select {
+				case <-done:
+					return
+				case <-time.After(10 * time.Second):
+					ex.mu.Lock()
+					fmt.Fprintf(os.Stderr, "[%s %.0fs] items=%d paths=%d infeasible=%d queue=%d active=%d aborted=%d viol=%d steps=%d\n", fn.Name(), time.Since(ex.started).Seconds(),
+						ex.nItems, ex.res.Paths, ex.res.Infeasible, len(ex.queue), ex.active, len(ex.res.Aborted), len(ex.res.Violations), ex.res.Steps)
+					ex.mu.Unlock()
+				}
+			}
+		}()
+	}
 	var wg sync.WaitGroup
 	for w := 0; w < cfg.Workers; w++ {
 		wg.Add(1)
@@ -111,6 +128,12 @@ func (ex *explorer) worker(id int) {
 		ex.res.Aborted["solver start: "+err.Error()]++
 		ex.mu.Unlock()
 		return
+	}
+	if d := os.Getenv("GOSYM_SMTLOG"); d != "" {
+		if f, err := os.Create(fmt.Sprintf("%s/worker%d.smt2", d, id)); err == nil {
+			solver.log = f
+			defer f.Close()
+		}
 	}
 	defer func() {
 		ex.mu.Lock()
